@@ -7,12 +7,16 @@ unit = sys.argv[1]
 repo = "/repo"
 only = None
 tier = "quick"
+tmo = None
 for a in sys.argv[2:]:
     if a.startswith("--repo="): repo = a[7:]
     elif a.startswith("--only="): only = a[7:].split(",")
     elif a.startswith("--tier="): tier = a[7:]
+    elif a.startswith("--timeout="): tmo = a[10:]
 u = kanix.parse_template(f"/verif/contracts/{unit}.kani.rs")
 hs = [h for h in u["harnesses"] if (only is None and (tier == "thorough" or h["tier"] == "quick")) or (only and h["name"] in only)]
+if tmo:
+    for h in hs: h["timeout"] = tmo
 with kanix.Scratch(repo, "ktest-" + unit) as sc:
     print(kanix.inject(sc.ws, u))
     r = kanix.run_group(sc.ws, u["package"], u["flags"], hs, 8, "/verif/build/logs", "ktest-" + unit)
